@@ -1,6 +1,200 @@
 import CkbVerif.Driver.Util
+import CkbVerif.Model.Molecule
+import CkbVerif.Model.Json
+import CkbVerif.Gen.Schemas
+
+/-! Line-protocol driver for C15 (protocol: harness/hcore/src/c15.rs).
+
+Stream `mol`:
+  enc <Type> <val>            -> <hex>                 model: `encode`
+  dec <Type> <s|c> <hex>      -> ok <val> | err        model: `decode` strict / compatible
+  ver <Type> <s|c> <hex>      -> ok | err              model: `verify`
+  pre <what> <hex>            -> <hex> | err           model: hash pre-image selected from the layout
+Stream `json`:
+  ju <bits> <n>               -> <0x-hex string>       model: `Json.showUint`
+  jp <bits> <string>          -> ok <n> | err          model: `Json.parseUint`
+  jb <hex>                    -> <0x-hex string>       model: `Json.showBytes`
+  jq <string>                 -> ok <hex> | err        model: `Json.parseBytes`
+
+Value syntax (one token): `bHH` byte, `xHEX…` non-empty sequence of bytes, `(v,v,…)` sequence,
+`()` empty sequence, `N` none, `S<v>` some, `U<id>:<v>` union.
+-/
 namespace CkbVerif.Driver.C15
-def main (_args : List String) : IO UInt32 := do
-  IO.eprintln "C15: model driver not implemented"
-  return 2
+open CkbVerif.Driver CkbVerif.Molecule
+
+def hexDigit (n : Nat) : Char :=
+  if n < 10 then Char.ofNat (48 + n) else Char.ofNat (87 + n)
+
+def hexCharsOf (b : Bytes) (acc : List Char) : List Char :=
+  b.foldr (fun x acc => hexDigit (x.toNat / 16) :: hexDigit (x.toNat % 16) :: acc) acc
+
+def hexOf (b : Bytes) : String :=
+  if b.isEmpty then "-" else String.ofList (hexCharsOf b [])
+
+def hexVal (c : Char) : Option Nat :=
+  if c.isDigit then some (c.toNat - 48)
+  else if 'a' ≤ c ∧ c ≤ 'f' then some (c.toNat - 87)
+  else none
+
+partial def unhexAux : List Char → Bytes → Option Bytes
+  | [], acc => some acc.reverse
+  | [_], _ => none
+  | a :: b :: rest, acc =>
+    match hexVal a, hexVal b with
+    | some x, some y => unhexAux rest (UInt8.ofNat (x * 16 + y) :: acc)
+    | _, _ => none
+
+def unhex (s : String) : Option Bytes :=
+  if s = "-" then some [] else unhexAux s.toList []
+
+def isByte : Val → Bool
+  | .byte _ => true
+  | _ => false
+
+partial def showValAux : Val → List Char → List Char
+  | .byte b, acc => 'b' :: hexDigit (b.toNat / 16) :: hexDigit (b.toNat % 16) :: acc
+  | .seq [], acc => '(' :: ')' :: acc
+  | .seq vs, acc =>
+    if vs.all isByte then
+      'x' :: vs.foldr (fun v acc =>
+        match v with
+        | .byte x => hexDigit (x.toNat / 16) :: hexDigit (x.toNat % 16) :: acc
+        | _ => acc) acc
+    else
+      let rec go : List Val → List Char → List Char
+        | [], acc => acc
+        | [v], acc => showValAux v acc
+        | v :: rest, acc => showValAux v (',' :: go rest acc)
+      '(' :: go vs (')' :: acc)
+  | .none, acc => 'N' :: acc
+  | .some v, acc => 'S' :: showValAux v acc
+  | .union id v, acc => 'U' :: (toString id).toList ++ (':' :: showValAux v acc)
+
+def showVal (v : Val) : String := String.ofList (showValAux v [])
+
+partial def parseHexRun : List Char → List Val → List Val × List Char
+  | a :: b :: rest, acc =>
+    match hexVal a, hexVal b with
+    | some x, some y => parseHexRun rest (.byte (UInt8.ofNat (x * 16 + y)) :: acc)
+    | _, _ => (acc.reverse, a :: b :: rest)
+  | rest, acc => (acc.reverse, rest)
+
+partial def parseDigits : List Char → Nat → Nat × List Char
+  | c :: rest, n => if c.isDigit then parseDigits rest (n * 10 + (c.toNat - 48)) else (n, c :: rest)
+  | [], n => (n, [])
+
+mutual
+partial def parseVal : List Char → Option (Val × List Char)
+  | 'b' :: h :: l :: rest =>
+    match hexVal h, hexVal l with
+    | some x, some y => some (.byte (UInt8.ofNat (x * 16 + y)), rest)
+    | _, _ => none
+  | 'x' :: rest =>
+    let (vs, r) := parseHexRun rest []
+    if vs.isEmpty then none else some (.seq vs, r)
+  | 'N' :: rest => some (.none, rest)
+  | 'S' :: rest =>
+    match parseVal rest with
+    | some (v, r) => some (.some v, r)
+    | none => none
+  | 'U' :: rest =>
+    match parseDigits rest 0 with
+    | (id, ':' :: r) =>
+      match parseVal r with
+      | some (v, r2) => some (.union id v, r2)
+      | none => none
+    | _ => none
+  | '(' :: ')' :: rest => some (.seq [], rest)
+  | '(' :: rest => parseItems rest []
+  | _ => none
+partial def parseItems : List Char → List Val → Option (Val × List Char)
+  | cs, acc =>
+    match parseVal cs with
+    | some (v, ',' :: r) => parseItems r (v :: acc)
+    | some (v, ')' :: r) => some (.seq (v :: acc).reverse, r)
+    | _ => none
+end
+
+def readVal (s : String) : Option Val :=
+  match parseVal s.toList with
+  | some (v, []) => some v
+  | _ => none
+
+def lookup (name : String) : Option Schema :=
+  (CkbVerif.Gen.Schemas.all.find? (fun p => p.1 == name)).map (·.2)
+
+def modeOf (m : String) : Option Bool :=
+  if m = "s" then some false else if m = "c" then some true else none
+
+/-- Hash pre-images selected from the layout (the hash function itself is opaque):
+`tx`   tx hash        = H(raw field of Transaction)
+`wtx`  witness hash   = H(whole Transaction)
+`hdr`  header hash    = H(whole Header)
+`pow`  pow hash input = raw field of Header
+`script` / `cellout` … = H(whole entity) -/
+def preimage (what : String) (bs : Bytes) : Option Bytes :=
+  match what with
+  | "tx" =>
+    match dynHeader bs with
+    | some (a :: b :: _) => if verify false CkbVerif.Gen.Schemas.S.Transaction bs then some (slice bs a b) else none
+    | _ => none
+  | "wtx" => if verify false CkbVerif.Gen.Schemas.S.Transaction bs then some bs else none
+  | "hdr" => if verify false CkbVerif.Gen.Schemas.S.Header bs then some bs else none
+  | "pow" => if verify false CkbVerif.Gen.Schemas.S.Header bs then some (slice bs 0 (size CkbVerif.Gen.Schemas.S.RawHeader)) else none
+  | _ => none
+
+def stepMol (ts : List String) : String :=
+  match ts with
+  | ["enc", t, v] =>
+    match lookup t, readVal v with
+    | some s, some v => hexOf (encode s v)
+    | _, _ => "bad-op"
+  | ["dec", t, m, hx] =>
+    match lookup t, modeOf m, unhex hx with
+    | some s, some c, some bs =>
+      match decode c s bs with
+      | some v => "ok " ++ showVal v
+      | none => "err"
+    | _, _, _ => "bad-op"
+  | ["ver", t, m, hx] =>
+    match lookup t, modeOf m, unhex hx with
+    | some s, some c, some bs => if verify c s bs then "ok" else "err"
+    | _, _, _ => "bad-op"
+  | ["pre", what, hx] =>
+    match unhex hx with
+    | some bs =>
+      match preimage what bs with
+      | some p => hexOf p
+      | none => "err"
+    | none => "bad-op"
+  | _ => "bad-op"
+
+def stepJson (ts : List String) : String :=
+  match ts with
+  | ["ju", bits, n] =>
+    match parseNat? bits, parseNat? n with
+    | some _, some n => CkbVerif.Json.showUint n
+    | _, _ => "bad-op"
+  | ["jp", bits, s] =>
+    match parseNat? bits with
+    | some bits =>
+      match CkbVerif.Json.parseUint bits s.toList with
+      | some n => s!"ok {n}"
+      | none => "err"
+    | none => "bad-op"
+  | ["jb", hx] =>
+    match unhex hx with
+    | some bs => CkbVerif.Json.showBytes bs
+    | none => "bad-op"
+  | ["jq", s] =>
+    match CkbVerif.Json.parseBytes s.toList with
+    | some bs => "ok " ++ hexOf bs
+    | none => "err"
+  | _ => "bad-op"
+
+def main (args : List String) : IO UInt32 :=
+  match args with
+  | ["json"] => runLines () (fun _ ts => ((), stepJson ts))
+  | _ => runLines () (fun _ ts => ((), stepMol ts))
+
 end CkbVerif.Driver.C15
